@@ -119,12 +119,222 @@ def run(tier):
     ck.sample({'policy_text': policy_text(pairs[len(pairs) // 2]['case']['policy']), 'peer': pairs[len(pairs) // 2]['case']['peer'],
                'expected_errors': pairs[len(pairs) // 2]['errors']})
     cli_leg(ck, tier, rnd)
+    policy_file_leg(ck, tier, rnd)
     ck.cov['rule'] = ('TLC: per field every (policy, peer) pair - lists up to length %d over {a1,b2,c3,strict marker} x optional host keys x subset flag; size maps '
                       '{2048,3072} x {1024..4096} x CA type/size x larger flag; banner/compression - with the laws checked on each; all replayed in-process, a sample '
                       'through the CLI. distinct non-trivial = distinct failing pairs' % maxlen)
     ck.cov['exhaustive'] = True
     ck.assumptions += ['policy lists are non-empty (a policy file cannot express an empty list)', 'fields are independent in the rule, so the product is taken per field']
     return ck.finish()
+
+
+# what each line token of SshPolicyFile.tla looks like in a file
+LINES = {
+    'comment': '# ciphers = 3des-cbc', 'blank': '   \t', 'noeq': 'ciphers aes256-ctr', 'unknown': 'cipher = aes256-ctr', 'unknown-case': 'Ciphers = aes256-ctr',
+    'name': 'name = "verif"', 'name-other': 'name="other"', 'name-unquoted': 'name = verif', 'name-empty': 'name =', 'name-escaped': 'name = "a\\"b"',
+    'version': 'version = 1', 'version2': 'version=2', 'banner': 'banner = "SSH-2.0-OpenSSH_9.6"', 'banner-unquoted': 'banner = SSH-2.0-OpenSSH_9.6',
+    'comp': 'compressions = none, zlib@openssh.com',
+    'key': 'host keys = ssh-ed25519, rsa-sha2-512', 'key2': 'host keys = ssh-ed25519', 'opt': 'optional host keys = ssh-ed25519-cert-v01@openssh.com',
+    'kex': 'key exchanges = curve25519-sha256, diffie-hellman-group-exchange-sha256',
+    'kex-gss': 'key exchanges = gss-group14-sha256-toWM5Slw5Ew8Mqkay+al2g==, curve25519-sha256',
+    'enc': 'ciphers = aes256-ctr, aes128-ctr', 'enc-spaces': 'ciphers =   aes256-ctr ,aes128-ctr  ', 'enc-indented': '\t  ciphers = aes128-ctr   ',
+    'enc-single': 'ciphers = chacha20-poly1305@openssh.com', 'enc-empty': 'ciphers =', 'mac': 'macs = hmac-sha2-256-etm@openssh.com',
+    'hk-old-rsa': 'hostkey_size_ssh-rsa = 2048', 'hk-old-ed': 'hostkey_size_ssh-ed25519 = 256', 'hk-old-bad': 'hostkey_size_ssh-rsa = big',
+    'ca-old-rsacert': 'cakey_size_ssh-rsa-cert-v01@openssh.com = 4096', 'ca-old-edcert': 'cakey_size_ssh-ed25519-cert-v01@openssh.com = 256',
+    'hks-new': 'host_key_sizes = {"ssh-rsa": {"hostkey_size": 3072}, "ssh-rsa-cert-v01@openssh.com": {"hostkey_size": 3072, "ca_key_type": "ssh-rsa", "ca_key_size": 4096}}',
+    'hks-bad': 'host_key_sizes = {"ssh-rsa": {"hostkey_size": 3072}',
+    'dh-old': 'dh_modulus_size_diffie-hellman-group-exchange-sha256 = 2048', 'dh-old2': 'dh_modulus_size_diffie-hellman-group-exchange-sha1 = 4096',
+    'dh-new': 'dh_modulus_sizes = {"diffie-hellman-group-exchange-sha256": 3072}', 'dh-bad': 'dh_modulus_size_diffie-hellman-group-exchange-sha256 = 2k',
+    'client': 'client policy = true', 'client-false': 'client policy = false', 'client-upper': 'client policy = TRUE',
+    'subset': 'allow_algorithm_subset_and_reordering = true', 'subset-false': 'allow_algorithm_subset_and_reordering = false',
+    'larger': 'allow_larger_keys = True', 'larger-yes': 'allow_larger_keys = yes'}
+FILE_LAWS = ['MachineIsLoad', 'CommentsAreInert', 'NamedAndVersioned', 'FirstErrorWins', 'IndependentLinesCommute', 'OldCaSizeComesFromTheFile']
+INTERACTING = ['comment', 'name', 'version', 'enc', 'enc-single', 'hk-old-rsa', 'hk-old-ed', 'ca-old-rsacert', 'ca-old-edcert', 'hks-new', 'dh-old', 'dh-old2', 'dh-new',
+               'client', 'client-false', 'larger', 'noeq']
+
+
+def _load_policy_text(text):
+    """-> ('refused', reason class, detail) | ('loaded', {field: value})"""
+    import contextlib
+    import io
+    from ssh_audit.policy import Policy
+    buf = io.StringIO()
+    try:
+        with contextlib.redirect_stdout(buf), contextlib.redirect_stderr(buf):
+            p = Policy(policy_data=text)
+    except BaseException as e:      # noqa  (the CLI catches Exception around the load and leaves with the error status)
+        m = str(e)
+        reason = ('unparsable-line' if 'could not parse line' in m else 'invalid-field' if 'invalid field' in m else 'unquoted' if 'enclosed in quotes' in m
+                  else 'no-name' if 'does not have a name' in m else 'no-version' if 'does not have a version' in m
+                  else 'cakey-before-hostkey' if isinstance(e, (UnboundLocalError, NameError)) else 'bad-json' if type(e).__name__ == 'JSONDecodeError'
+                  else 'bad-number' if isinstance(e, ValueError) and 'invalid literal' in m else 'other:%s' % type(e).__name__)
+        return 'refused', reason, {'exception': repr(e), 'warned': buf.getvalue().count('deprecated features'), 'catchable': isinstance(e, Exception)}
+    opt = lambda v: [] if v is None else [v]                                                 # noqa
+    hks = {}
+    for t, e in (p._hostkey_sizes or {}).items():                                            # pylint: disable=protected-access
+        hks[t] = {'size': e.get('hostkey_size'), 'catype': e.get('ca_key_type', ''), 'casize': e.get('ca_key_size', 0)}
+    return 'loaded', {'name': opt(p._name), 'version': opt(p._version), 'banner': opt(p._banner), 'comp': opt(p._compressions), 'key': opt(p._host_keys),
+                      'opt': opt(p._optional_host_keys), 'kex': opt(p._kex), 'enc': opt(p._ciphers), 'mac': opt(p._macs),
+                      'hksSet': p._hostkey_sizes is not None, 'hks': hks, 'dhsSet': p._dh_modulus_sizes is not None, 'dhs': dict(p._dh_modulus_sizes or {}),
+                      'server': p.is_server_policy(), 'subset': p._allow_algorithm_subset_and_reordering, 'larger': p._allow_larger_keys,
+                      'warned': buf.getvalue().count('deprecated features'), 'name_and_version': p.get_name_and_version()}, None
+
+
+def _seq(v):
+    """TLC prints an empty sequence and an empty function alike; lists of lists come back as lists."""
+    return [list(x) if isinstance(x, (list, tuple)) else x for x in (v or [])]
+
+
+def policy_file_leg(ck, tier, rnd):
+    """SshPolicyFile.tla bound to policy.Policy(policy_data=...): every file TLC enumerates is written out, loaded by the real class and the
+    object compared field by field with the model's; a sample goes through the CLI (-P file) to see that a refused file stops the run
+    before any connection and a loaded one decides the verdict the loaded fields imply."""
+    full = sorted(LINES)
+    runs = [('all lines', full, 2 if tier == 'quick' else 3, '{<<>>, <<"name", "version">>}')]
+    runs.append(('interacting lines', INTERACTING, 3 if tier == 'quick' else 4, '{<<"name", "version">>}' if tier == 'quick' else '{<<>>, <<"name", "version">>}'))
+    seen = set()
+    total = 0
+    for label, vocab, maxlines, headers in runs:
+        cfg = ('SPECIFICATION Spec\nCONSTANTS\n Vocabulary = {%s}\n MaxLines = %d\n Headers <- HeadersDef\n' % (', '.join('"%s"' % t for t in vocab), maxlines)
+               + ''.join('INVARIANT %s\n' % i for i in FILE_LAWS) + 'PROPERTY FlagsOnlyRise\nINVARIANT Emit\n')
+        mod = ('---- MODULE MC_SshPolicyFile ----\nEXTENDS SshPolicyFile\nHeadersDef == %s\n====\n' % headers)
+        res = tlc.run('MC_SshPolicyFile', cfg, generated={'MC_SshPolicyFile.tla': mod}, workers=None, timeout=3000)
+        ck.add_tlc(res)
+        common.require(res.ok, 'SshPolicyFile (%s): %s violated:\n%s' % (label, res.violated, '\n'.join(res.trace[-30:])))
+        cases = [p for p in res.prints if isinstance(p, dict) and 'obj' in p]
+        common.require(len(cases) > 500, 'SshPolicyFile (%s) emitted only %d files' % (label, len(cases)))
+        ck.log('SshPolicyFile (%s): %d files of up to %d body lines; laws %s, FlagsOnlyRise hold' % (label, len(cases), maxlines, ', '.join(FILE_LAWS)))
+        for c in cases:
+            toks = tuple(c['file'] or [])
+            if toks in seen:
+                continue
+            seen.add(toks)
+            total += 1
+            ck.evaluated()
+            text = '\n'.join(LINES[t] for t in toks) + '\n'
+            want = c['obj']
+            kind, got, detail = _load_policy_text(text)
+            replay = {'file_tokens': list(toks), 'policy_text': text, 'expected': {k: want[k] for k in ('status', 'reason')}, 'observed': (kind, got if kind == 'refused' else None, detail)}
+            if want['status'] == 'refused' and want['reason'] == 'cakey-before-hostkey' and kind == 'loaded':
+                # the model refuses because the code does (an unbound local); a loader that copes with such a file breaks nothing the
+                # property states, so nothing is compared - the size such an entry gets when a host key size *was* given is compared below
+                ck.cov['traces_validated_against_impl'] += 1
+                continue
+            if want['status'] == 'refused':
+                if kind != 'refused':
+                    ck.violation('policy-file-accepted reason=%s' % want['reason'], 'the file %r is loaded although the loader is documented to refuse it (%s)' % (list(toks), want['reason']), replay)
+                elif got != want['reason'] and not got.startswith('other:') and want['reason'] != 'cakey-before-hostkey':
+                    # (a refusal the harness cannot classify is still a refusal; the refusal of a CA size without a host key size is an
+                    # accident of the code - an unbound local - so any refusal will do there; what is reported is a *different line or rule* deciding)
+                    ck.violation('policy-file-refusal expected=%s observed=%s' % (want['reason'], got), 'the file %r is refused for %s (%s), the model says %s'
+                                 % (list(toks), got, detail['exception'][:120], want['reason']), replay)
+                elif not detail['catchable']:
+                    ck.violation('policy-file-refusal-uncatchable', 'the file %r is refused by %s, which the command line does not turn into its error status' % (list(toks), detail['exception'][:120]), replay)
+                else:
+                    ck.cov['traces_validated_against_impl'] += 1
+                    ck.nontrivial(('policy-file', toks))
+                continue
+            if kind != 'loaded':
+                ck.violation('policy-file-refused reason=%s' % got, 'the file %r is refused (%s: %s), the model loads it' % (list(toks), got, detail['exception'][:160]), replay)
+                continue
+            bad = []
+            for f in ('name', 'version', 'banner'):
+                if _seq(want[f]) != got[f]:
+                    bad.append((f, _seq(want[f]), got[f]))
+            for f in ('comp', 'key', 'opt', 'kex', 'enc', 'mac'):
+                if _seq(want[f]) != [list(x) for x in got[f]]:
+                    bad.append((f, _seq(want[f]), got[f]))
+            for f in ('hksSet', 'dhsSet', 'server', 'subset', 'larger', 'warned'):
+                if want[f] != got[f]:
+                    bad.append((f, want[f], got[f]))
+            whks = {t: e for t, e in want['hks'].items() if e['size'] != -1}
+            if whks != got['hks']:
+                bad.append(('hks', whks, got['hks']))
+            wdhs = {t: n for t, n in want['dhs'].items() if n != -1}
+            if wdhs != got['dhs']:
+                bad.append(('dhs', wdhs, got['dhs']))
+            if not bad and got['name_and_version'] != '%s (version %s)' % (want['name'][0], want['version'][0]):
+                bad.append(('name_and_version', '%s (version %s)' % (want['name'][0], want['version'][0]), got['name_and_version']))
+            if bad:
+                f, w, g = bad[0]
+                replay['observed_fields'] = got
+                ck.violation('policy-file-field field=%s' % f, 'the file %r loads with %s = %r, its lines say %r%s' % (list(toks), f, g, w, '' if len(bad) == 1 else ' (%d more fields differ)' % (len(bad) - 1)), replay)
+            else:
+                ck.cov['traces_validated_against_impl'] += 1
+                ck.nontrivial(('policy-file', toks))
+    ck.notes.append('policy-file leg: %d distinct files replayed into Policy(policy_data=...)' % total)
+    policy_file_cli_leg(ck, tier, rnd, sorted(seen))
+
+
+def policy_file_cli_leg(ck, tier, rnd, files):
+    """A sample of the enumerated files through the command line: refused => the error status and no connection at all; loaded =>
+    the audit runs and the verdict is the one the loaded fields imply for a fixed server (ciphers / host key sizes / moduli)."""
+    import os
+    import shutil
+    import tempfile
+    want_of = {}
+    res = None
+    n = 60 if tier == 'quick' else 400
+    sample = rnd.sample(files, min(n, len(files)))
+    # expected status straight from the model (re-evaluated by TLC for exactly these files would be the same records: reuse Load via a tiny run)
+    mod = ('---- MODULE MC_SshPolicyFileCli ----\nEXTENDS SshPolicyFile\nFiles == %s\nEmitAll == PrintT(ToJson([f \\in 1..Len(Files) |-> [file |-> Files[f], obj |-> Load(Files[f])]]))\n'
+           'ASSUME EmitAll\n====\n' % ('<<' + ', '.join('<<' + ', '.join('"%s"' % t for t in f) + '>>' for f in sample) + '>>'))
+    cfg = 'SPECIFICATION Spec\nCONSTANTS\n Vocabulary = {"name"}\n MaxLines = 0\n Headers <- HeadersDef\n'
+    mod = mod.replace('Files ==', 'HeadersDef == {<<>>}\nFiles ==')
+    res = tlc.run('MC_SshPolicyFileCli', cfg, generated={'MC_SshPolicyFileCli.tla': mod}, workers=1, timeout=600)
+    ck.add_tlc(res)
+    common.require(res.ok, 'SshPolicyFile (cli sample): %s' % res.error_text)
+    recs = [p for p in res.prints if isinstance(p, list) and p and isinstance(p[0], dict) and 'obj' in p[0]]
+    common.require(recs and len(recs[0]) == len(sample), 'TLC did not emit the sample expectations')
+    for r in recs[0]:
+        want_of[tuple(r['file'] or [])] = r['obj']
+    # the server every sampled policy is applied to: what the 'enc' line lists, ed25519 + rsa-sha2-512 host keys (RSA 3072), GEX 3072
+    server = dict(kex=['curve25519-sha256', 'diffie-hellman-group-exchange-sha256'], key=['ssh-ed25519', 'rsa-sha2-512'], enc=['aes256-ctr', 'aes128-ctr'],
+                  mac=['hmac-sha2-256-etm@openssh.com'])
+    tmp = tempfile.mkdtemp(prefix='vpolf-')
+    try:
+        scs = []
+        for k, toks in enumerate(sample):
+            path = os.path.join(tmp, 'p%d.txt' % k)
+            with open(path, 'w') as f:
+                f.write('\n'.join(LINES[t] for t in toks) + '\n')
+            c = rating.mk_case(900 + k, kex=server['kex'], key=server['key'], enc=server['enc'], mac=server['mac'])
+            sc = rating.scenario(c, 'json')
+            sc['argv'] = ['-P', path] + [a for a in sc['argv']]
+            scs.append(sc)
+        for toks, sc, r in zip(sample, scs, runner.run_many(scs)):
+            ck.evaluated()
+            want = want_of[tuple(toks)]
+            replay = {'file_tokens': list(toks), 'policy_text': '\n'.join(LINES[t] for t in toks), 'argv': sc['argv'][2:], 'exit': r.get('exit'), 'stdout': (r.get('stdout') or '')[-1500:],
+                      'connections': r.get('nconn')}
+            if r.get('harness_error') or r.get('hang'):
+                ck.violation('policy-file-cli-run-did-not-complete', 'a run with the policy file %r did not complete: %r' % (list(toks), r.get('harness_error') or 'hang'), replay)
+                continue
+            nconn = r.get('nconn') or 0
+            if want['status'] == 'refused' and want['reason'] == 'cakey-before-hostkey':
+                continue
+            if want['status'] == 'refused' or not want['server']:
+                # (a client policy is refused for a server audit)
+                if r['exit'] != 255 and r['exit'] != -1:
+                    ck.violation('policy-file-cli-refused-status', 'the policy file %r cannot be used (%s) but the run ends with status %r' % (list(toks), want['reason'] or 'client policy', r['exit']), replay)
+                elif nconn:
+                    ck.violation('policy-file-cli-refused-connects', 'the policy file %r cannot be used (%s) yet %d connection(s) were made' % (list(toks), want['reason'] or 'client policy', nconn), replay)
+                else:
+                    ck.cov['traces_validated_against_impl'] += 1
+                    ck.nontrivial(('policy-file-cli', tuple(toks)))
+                continue
+            # loaded server policy: the verdict over the fields the model says were loaded
+            enc_ok = (not want['enc']) or list(want['enc'][0]) == server['enc'] or (want['subset'] and set(server['enc']) <= set(want['enc'][0]))
+            if r['exit'] not in (0, 3):
+                ck.violation('policy-file-cli-status', 'a loaded policy file %r: the audit ends with status %r' % (list(toks), r['exit']), replay)
+            elif not enc_ok and r['exit'] != 3:
+                ck.violation('policy-file-cli-verdict', 'the policy file %r lists ciphers %r, the server offers %r, yet the audit passes' % (list(toks), want['enc'][0], server['enc']), replay)
+            else:
+                ck.cov['traces_validated_against_impl'] += 1
+                ck.nontrivial(('policy-file-cli', tuple(toks)))
+    finally:
+        shutil.rmtree(tmp, ignore_errors=True)
+    ck.notes.append('policy-file CLI leg: %d files through -P' % len(sample))
 
 
 def _field(p):
